@@ -1881,7 +1881,15 @@ class Pipeline:
             if output_names is None
             else {pipeline.node_mapping[n] for n in output_names}  # type: ignore[misc]
         )
-        between = _find_nodes_between(pipeline.graph, input_nodes, output_nodes)
+        # Functions that need no input at all (no parameters, or only defaults and bound
+        # values) are available regardless of which inputs are provided.
+        independent = {
+            f
+            for f in pipeline.functions
+            if f not in input_nodes
+            and all(arg in pipeline.defaults for arg in pipeline.root_args(f.output_name))
+        }
+        between = _find_nodes_between(pipeline.graph, input_nodes, output_nodes, independent)
         drop = [f for f in pipeline.functions if f not in between]
         for f in drop:
             pipeline.drop(f=f)
@@ -2153,9 +2161,10 @@ def _find_nodes_between(
     graph: nx.DiGraph,
     input_nodes: set[Any],
     output_nodes: set[Any],
+    independent_nodes: set[Any] = frozenset(),  # type: ignore[assignment]
 ) -> set[Any]:
-    reachable_from_inputs = set()
-    for input_node in input_nodes:
+    reachable_from_inputs = set(independent_nodes)
+    for input_node in input_nodes | independent_nodes:
         reachable_from_inputs.update(nx.descendants(graph, input_node))
     reachable_to_outputs = set()
     for output_node in output_nodes:
